@@ -8,7 +8,7 @@ import itertools, os, re
 import vlib, mmlgen
 
 COQ_TARGET = "props/C07.v"
-THEOREMS = ["C07_calc_length_total", "C07_writer_total"]
+THEOREMS = ["C07_numerals_bounded", "C07_hex_numerals_bounded", "C07_saturation_is_cap", "C07_writer_total"]
 RULE = ("every sequence of up to k lexical fragments from the language's alphabet (k=2 quick over the full alphabet, "
         "k=3 over a reduced alphabet; thorough k=3 full), random junk text incl. non-ASCII, grammar programs with arguments "
         "dropped/duplicated/out of range (every command name of the implementation's table x 16 argument shapes, every reservation head x "
